@@ -91,6 +91,14 @@ def large_case(item):
     nd = t.node_data
     name_of = {frozenset(d.idx for d in v): k for k, v in nd.items() if k != t.outlier_node_name}
     dmap = {d.idx: d for d in data}
+    try:
+        return _judge_large(res, par, G, dims, state, data, ch, ccfs, prevs, name_of, dmap)
+    except Exception as e:
+        res["problems"].append("the returned CCF / prevalence dictionaries cannot be read for this tree (%s: %s)" % (type(e).__name__, str(e)[:80]))
+        return res
+
+
+def _judge_large(res, par, G, dims, state, data, ch, ccfs, prevs, name_of, dmap):
     for dim in range(dims):
         res["n"] += 1
         idx = {}
@@ -116,6 +124,13 @@ def large_case(item):
 
 
 def case(item):
+    try:
+        return _case(item)
+    except Exception as e:
+        return {"item": item, "problems": ["the returned CCF / prevalence dictionaries cannot be read for this tree (%s: %s)" % (type(e).__name__, str(e)[:80])], "n": 1}
+
+
+def _case(item):
     par, G, dims, kind, seed = item
     from phyclone.process_trace.map import get_map_node_ccfs_and_clonal_prev_dicts
     from phyclone.process_trace.process_trace import get_clone_table
